@@ -925,11 +925,8 @@ class Exec:
     def bind_args(self, fnode, args, kwargs, st, defaults_frame=None):
         """Python argument binding for a FunctionDef/Lambda.  Returns env dict."""
         a = fnode.args
-        if a.vararg or a.kwarg or a.posonlyargs:
-            if a.vararg and not a.kwarg:
-                pass
-            else:
-                raise Unsupported("*args/**kwargs in signature")
+        if a.posonlyargs:
+            raise Unsupported("positional-only parameters in signature")
         names = [x.arg for x in a.args]
         env = {}
         args = list(args)
@@ -943,12 +940,18 @@ class Exec:
             env[a.vararg.arg] = ()
         for n, v in zip(names, args):
             env[n] = v
+        extra_kw = {}
         for k, v in kwargs.items():
             if k in env:
                 raise Unsupported("duplicate argument " + k)
             if k not in names and k not in [x.arg for x in a.kwonlyargs]:
+                if a.kwarg:
+                    extra_kw[k] = v          # **kwargs collects the keywords no parameter takes
+                    continue
                 raise Unsupported("unexpected keyword " + k)
             env[k] = v
+        if a.kwarg:
+            env[a.kwarg.arg] = st.alloc(DictV(extra_kw))
         ndef = len(a.defaults)
         for i, n in enumerate(names):
             if n not in env:
